@@ -98,6 +98,20 @@ def _adaptive_corrupt(evs, profile):
     return None
 
 
+def _retry_corrupt(evs, profile):
+    out = [dict(e) for e in evs]
+    # one more attempt than was made: a sleeping request's wake-up poll is duplicated
+    for i, e in enumerate(out):
+        if e.get('e') == 'poll' and e.get('res') == 'err' and e.get('nd') == 1:
+            e2 = dict(e)
+            e2.update({'res': 'pending'})
+            e2.pop('kind', None)
+            e2.pop('val', None)
+            out[i] = e2
+            return out[:i + 1]
+    return None
+
+
 COMPONENTS = {
     'bulkhead': {
         'spec_files': ['Bulkhead.tla', 'MC_Bulkhead.tla', 'Trace_Bulkhead.tla'],
@@ -154,6 +168,15 @@ COMPONENTS = {
         'random': {'quick': [{'runs': 1200}], 'thorough': [{'runs': 15000}]},
         'corrupt': _adaptive_corrupt,
     },
+    'retry': {
+        'spec_files': ['Retry.tla', 'MC_Retry.tla', 'Trace_Retry.tla'],
+        'mc': {'quick': [{'cfg': 'MC_Retry_q.cfg', 'module': 'MC_Retry'}], 'thorough': [{'cfg': 'MC_Retry.cfg', 'module': 'MC_Retry'}]},
+        'gen': {'cfg': 'Gen_Retry.cfg', 'module': 'MC_Retry', 'num': {'quick': 400, 'thorough': 5000}, 'depth': 50},
+        'trace_module': 'Trace_Retry', 'trace_cfg_tmpl': 'Trace_Retry.cfg.tmpl',
+        'harness': 'retry',
+        'random': {'quick': [{'runs': 1500}], 'thorough': [{'runs': 20000}]},
+        'corrupt': _retry_corrupt,
+    },
 }
 
 PROPS = {
@@ -166,6 +189,7 @@ PROPS = {
             'random': {'quick': [{'runs': 1200, 'args': ['--variant', 'seq']}], 'thorough': [{'runs': 6000, 'args': ['--variant', 'seq']}, {'runs': 3000, 'size': 'quick', 'args': ['--variant', 'seq']}]}},
     'C08': {'comp': 'budget', 'profile': 'lin'},
     'C13': {'parts': [{'comp': 'limit', 'profile': 'bounds'}, {'comp': 'adaptive', 'profile': 'service'}]},
+    'C05': {'comp': 'retry', 'profile': 'full'},
     'C02': {'comp': 'ratelimiter', 'profile': 'ProfC02', 'drift_profile': 'ProfAll'},
     'C15': {'comp': 'ratelimiter', 'profile': 'ProfC15', 'drift_profile': 'ProfAll'},
 }
